@@ -174,7 +174,7 @@ fn ped_g1<const N: usize>(ctx: &mut Ctx, idx: usize) { ped_case::<G1Projective, 
 fn ped_g2<const N: usize>(ctx: &mut Ctx, idx: usize) { ped_case::<G2Projective, N>(ctx, idx) }
 
 pub fn run(ctx: &mut Ctx) {
-    let reps = if ctx.thorough() { 6 } else { 1 };
+    let reps = if ctx.thorough() { 18 } else { 1 };
     let mut idx = 0;
     for _ in 0..reps {
         for &n in NS.iter() {
